@@ -592,12 +592,16 @@ func TablePairing(p *load.Program, r *report.Report) {
 					}
 				}
 			}
+			allWritten := a.writeAllLoops(f, m)
 			for _, ef := range effs {
 				ef := ef
 				res := MustReach(f, c, Flow{
 					Stop: func(in ssa.Instruction) bool {
 						if w, buf := a.isWriterWrite(in, m); w && buf == s.OutBuf {
 							return true
+						}
+						if allWritten[in][s.OutBuf] {
+							return true // the exit of a loop that has written every buffer of an array literal
 						}
 						return u.isRestore(in, m, ef.Field, c)
 					},
